@@ -23,7 +23,7 @@ impl Default for Limits {
 pub enum Outcome {
     Done(Done),
     /// the child died while this input was being processed
-    Died { signal: Option<i32>, exit: Option<i32>, what: String, in_write: bool },
+    Died { signal: Option<i32>, exit: Option<i32>, what: String, in_write: bool, stderr: String },
     /// stalled in the batch and in three isolated re-runs with 10x the budget
     Hang { in_write: bool },
     /// stalled in the batch, but at least one isolated re-run finished and at least one did not: no verdict for this input
@@ -121,7 +121,7 @@ impl Sandbox {
                         else if errtext.contains("memory allocation of") { "allocation failure" }
                         else if st.signal() == Some(11) { "segmentation fault" }
                         else { "abort" };
-                    out[i] = Some(Outcome::Died { signal: st.signal(), exit: st.code(), what: what.to_string(), in_write });
+                    out[i] = Some(Outcome::Died { signal: st.signal(), exit: st.code(), what: what.to_string(), in_write, stderr: errtext.chars().take(400).collect() });
                     stats.restarts_after_death += 1;
                     start = i + 1;
                 }
@@ -146,7 +146,7 @@ impl Sandbox {
                                     None => {
                                         let errtext = String::from_utf8_lossy(&std::fs::read(&epath).unwrap_or_default()).to_string();
                                         let what = if errtext.contains("has overflowed its stack") { "stack overflow" } else if errtext.contains("memory allocation of") { "allocation failure" } else { "abort" };
-                                        finished.push(Outcome::Died { signal: st.signal(), exit: st.code(), what: what.into(), in_write });
+                                        finished.push(Outcome::Died { signal: st.signal(), exit: st.code(), what: what.into(), in_write, stderr: errtext.chars().take(400).collect() });
                                     }
                                 }
                             }
